@@ -16,8 +16,11 @@ Proof. exact dec_enc_string. Qed.
 (* the general statement: every type of the grammar, every value (nested structs, N-D arrays in any
    axis order, arrays of strings ...): the reader returns exactly the value whose image was written *)
 Theorem C01_read_back : forall t v img m off,
-  enc t v = Some img -> sits img m off -> len img < 2^62 -> dec t m off = Some (v, len img).
+  enc t v = Some img -> sits img m off -> len img < 2^62 -> targets_ok t v m off -> dec t m off = Some (v, len img).
 Proof. exact RT_all. Qed.
+Theorem C01_read_back_reference_free : forall t v img m off, has_refs t = false ->
+  enc t v = Some img -> sits img m off -> len img < 2^62 -> dec t m off = Some (v, len img).
+Proof. exact RT_ref_free. Qed.
 (* a string created from a capacity is the empty string *)
 Theorem C01_capacity_reads_empty : forall cap img m off, 1 <= cap -> cap + 8 < 2^63 ->
   enc TString (VStr [] (cap + 8)) = Some img -> sits img m off -> dec TString m off = Some (VStr [] (cap + 8), len img).
@@ -43,3 +46,4 @@ Print Assumptions C01_strides_address.
 Print Assumptions C01_position_bijection.
 Print Assumptions C01_checker_sound.
 Print Assumptions C01_read_back.
+Print Assumptions C01_read_back_reference_free.
